@@ -281,15 +281,20 @@ func treeVarSets() string {
 var genStrings = []string{"", "abc", "12", "-3", "x1", "0", "b", "007"}
 var genNumbers = []int{0, 1, 2, 3, 12, 100}
 
+// leafVars: the typed variables genLeaf may use (switched by the C12 generator)
+var leafVars = treeVars
+
 func genLeaf(r *rand.Rand, typ string) *pnode {
 	if r.Intn(3) == 0 {
 		cands := []string{}
-		for _, v := range treeVars {
+		for _, v := range leafVars {
 			if v.typ == typ {
 				cands = append(cands, v.name)
 			}
 		}
-		return &pnode{kind: "var", s: cands[r.Intn(len(cands))]}
+		if len(cands) > 0 {
+			return &pnode{kind: "var", s: cands[r.Intn(len(cands))]}
+		}
 	}
 	switch typ {
 	case "string":
@@ -473,7 +478,7 @@ func genC11(r *rand.Rand, tier string, st *Stats) []Case {
 		g.proc("mv", "t", "if "+e+" == "+e+" then return "+e+" end return 'F'", map[string]string{"cell": "vars"})
 	}
 	// (B) random well-typed trees, both renderings, value + syntax tree
-	ntrees := sizes(tier, 1500, 25000)
+	ntrees := sizes(tier, 1500, 100000)
 	for i := 0; i < ntrees; i++ {
 		typ := allTypes3[r.Intn(3)]
 		t := genTree(r, typ, 1+r.Intn(3))
@@ -493,6 +498,13 @@ func genC11(r *rand.Rand, tier string, st *Stats) []Case {
 			}
 		}
 	}
+	// (B2) ALL operator shapes of depth <= 2 (untyped, one leaf kind), both renderings: syntax tree only
+	shapes := allShapes(2)
+	st.Counts["shapes_depth2"] = len(shapes)
+	for _, t := range shapes {
+		g.parse("sh", "min", t.sexp(), t.renderMin(1))
+		g.parse("sh", "full", t.sexp(), t.renderFull())
+	}
 	// (C) token soups: model vs real parser on arbitrary (mostly malformed) expressions
 	soup := []string{"1", "2", "'a'", "x", "true", "(", ")", "+", "*", "-", "<", "==", "and", "or", "not", "head", "tail"}
 	nsoup := sizes(tier, 600, 6000)
@@ -506,6 +518,29 @@ func genC11(r *rand.Rand, tier string, st *Stats) []Case {
 	}
 	st.Counts["trees"] = ntrees
 	return g.cases
+}
+
+// allShapes: every tree of depth <= d over all unary and binary operators with leaves `a`, 1, 2 …
+func allShapes(d int) []*pnode {
+	leaf := &pnode{kind: "var", s: "a"}
+	if d == 0 {
+		return []*pnode{leaf}
+	}
+	sub := allShapes(d - 1)
+	out := []*pnode{leaf}
+	for _, op := range unOpNames {
+		for _, e := range sub {
+			out = append(out, &pnode{kind: "un", op: op, l: e})
+		}
+	}
+	for _, op := range binOpNames {
+		for _, l := range sub {
+			for _, r := range sub {
+				out = append(out, &pnode{kind: "bin", op: op, l: l, r: r})
+			}
+		}
+	}
+	return out
 }
 
 func procLeanCase(c Case, impl string) (string, bool) {
